@@ -34,6 +34,9 @@ proofs/Balance.vos proofs/Balance.vok proofs/Balance.required_vos: proofs/Balanc
 proofs/Kernel_facts.vo proofs/Kernel_facts.glob proofs/Kernel_facts.v.beautified proofs/Kernel_facts.required_vo: proofs/Kernel_facts.v model/Kernel.vo lib/Fp.vo model/KernelF64.vo
 proofs/Kernel_facts.vio: proofs/Kernel_facts.v model/Kernel.vio lib/Fp.vio model/KernelF64.vio
 proofs/Kernel_facts.vos proofs/Kernel_facts.vok proofs/Kernel_facts.required_vos: proofs/Kernel_facts.v model/Kernel.vos lib/Fp.vos model/KernelF64.vos
+proofs/Leapfrog_facts.vo proofs/Leapfrog_facts.glob proofs/Leapfrog_facts.v.beautified proofs/Leapfrog_facts.required_vo: proofs/Leapfrog_facts.v model/Leapfrog.vo model/LeapfrogQc.vo
+proofs/Leapfrog_facts.vio: proofs/Leapfrog_facts.v model/Leapfrog.vio model/LeapfrogQc.vio
+proofs/Leapfrog_facts.vos proofs/Leapfrog_facts.vok proofs/Leapfrog_facts.required_vos: proofs/Leapfrog_facts.v model/Leapfrog.vos model/LeapfrogQc.vos
 Properties/C06.vo Properties/C06.glob Properties/C06.v.beautified Properties/C06.required_vo: Properties/C06.v lib/Fp.vo model/Schedule.vo proofs/Schedule_facts.vo
 Properties/C06.vio: Properties/C06.v lib/Fp.vio model/Schedule.vio proofs/Schedule_facts.vio
 Properties/C06.vos Properties/C06.vok Properties/C06.required_vos: Properties/C06.v lib/Fp.vos model/Schedule.vos proofs/Schedule_facts.vos
@@ -49,6 +52,6 @@ Properties/C03.vos Properties/C03.vok Properties/C03.required_vos: Properties/C0
 Properties/C17.vo Properties/C17.glob Properties/C17.v.beautified Properties/C17.required_vo: Properties/C17.v lib/Fp.vo model/Kernel.vo model/KernelF64.vo proofs/Kernel_facts.vo
 Properties/C17.vio: Properties/C17.v lib/Fp.vio model/Kernel.vio model/KernelF64.vio proofs/Kernel_facts.vio
 Properties/C17.vos Properties/C17.vok Properties/C17.required_vos: Properties/C17.v lib/Fp.vos model/Kernel.vos model/KernelF64.vos proofs/Kernel_facts.vos
-Properties/C02.vo Properties/C02.glob Properties/C02.v.beautified Properties/C02.required_vo: Properties/C02.v model/Leapfrog.vo model/LeapfrogQc.vo
-Properties/C02.vio: Properties/C02.v model/Leapfrog.vio model/LeapfrogQc.vio
-Properties/C02.vos Properties/C02.vok Properties/C02.required_vos: Properties/C02.v model/Leapfrog.vos model/LeapfrogQc.vos
+Properties/C02.vo Properties/C02.glob Properties/C02.v.beautified Properties/C02.required_vo: Properties/C02.v model/Leapfrog.vo model/LeapfrogQc.vo proofs/Leapfrog_facts.vo
+Properties/C02.vio: Properties/C02.v model/Leapfrog.vio model/LeapfrogQc.vio proofs/Leapfrog_facts.vio
+Properties/C02.vos Properties/C02.vok Properties/C02.required_vos: Properties/C02.v model/Leapfrog.vos model/LeapfrogQc.vos proofs/Leapfrog_facts.vos
